@@ -277,7 +277,7 @@ func checkC06(c *Ctx) {
 	mod, ndeep := 3, 96
 	if c.Thorough() {
 		fams = append(fams, "suf2")
-		mod, ndeep = 1, 1600
+		mod, ndeep = 1, 4000
 	}
 
 	famCount := map[string]int{}
